@@ -7,6 +7,7 @@
 // (no change in /repo); class layout is unaffected by access specifiers with g++.
 #include <cmath>
 #include <fstream>
+#include <map>
 #include <memory>
 #include <set>
 #include <sstream>
@@ -56,6 +57,7 @@ static void print_sol(CoordinateGeometry2D& g, World& w) {
 
 static int run_net(const vector<string>& t);
 static int run_acord(const vector<string>& t);
+static int run_acord2(const vector<string>& t);
 
 int main()
 {
@@ -72,6 +74,8 @@ int main()
     try {
       if (op == "acord") {
         run_acord(t);
+      } else if (op == "acord2") {
+        run_acord2(t);
       } else if (op == "bd" && a.size() == 4) {              // ya xa yb xb
         double b, d; bearing_distance(a[0], a[1], a[2], a[3], b, d);
         std::cout << "ok " << vp::hex(b) << " " << vp::hex(d) << "\n";
@@ -330,20 +334,16 @@ static int run_net(const vector<string>& t)
 //           za f t v fdh tdh | dir f t v | H | hd f t v | V | dx f t v | dy f t v | dz f t v
 // Output:   (zderived) `cand id h…` per id with candidates before each get_medians_z; then for every id of
 //           the case in order of first appearance `pt id bxy x y bz z missing_xy missing_z`; `completed c`.
-static int run_acord(const vector<string>& t)
+// the records of an `acord` / `acord2` line from token `i` on, built through the real classes.
+// `N id z` (hdiff step stream only): a height another strategy publishes BETWEEN two executions of the strategy
+// (`PD[id].set_z(z); missing_z_.erase(id)`), collected in `later`.
+static bool parse_records(const vector<string>& t, size_t i, PointData& PD, ObservationData& OD, vector<string>& ids,
+                          vector<std::pair<string, double>>& later)
 {
-  if (t.size() < 5) { std::cout << "bad-op\n"; return 0; }
-  const string alg = t[1];
-  const int reps = atoi(t[2].c_str());
-  PointData PD; ObservationData OD;
-  PD.local_coordinate_system = LocalCoordinateSystem::CS(atoi(t[3].c_str()));
-  if (atoi(t[4].c_str())) PD.setAngularObservations_Righthanded(); else PD.setAngularObservations_Lefthanded();
-  vector<string> ids;
   auto note = [&](const string& id) { for (auto& s : ids) if (s == id) return; ids.push_back(id); };
   auto num = [&](const string& s) { return s.compare(0, 2, "0x") == 0 ? vp::unhex(s) : atof(s.c_str()); };
   GNU_gama::Cluster<Observation>* cl = nullptr;
   auto add = [&](Observation* o) { o->set_cluster(cl); cl->observation_list.push_back(o); };
-  size_t i = 5;
   bool bad = false;
   while (i < t.size() && !bad) {
     const string& r = t[i];
@@ -355,6 +355,9 @@ static int run_acord(const vector<string>& t)
       if (atoi(t[i + 8].c_str())) p.set_free_z();
       PD[t[i + 1]] = p; note(t[i + 1]);
       i += 9;
+    } else if (r == "N" && i + 2 < t.size()) {
+      later.push_back({t[i + 1], num(t[i + 2])}); note(t[i + 1]);
+      i += 3;
     } else if (r == "S" && i + 1 < t.size()) {
       StandPoint* sp = new StandPoint(&OD); sp->station = t[i + 1]; note(t[i + 1]);
       OD.clusters.push_back(sp); cl = sp; i += 2;
@@ -386,6 +389,31 @@ static int run_acord(const vector<string>& t)
       add(o); i += 6;
     } else bad = true;
   }
+  return !bad;
+}
+
+static void print_points(const vector<string>& ids, PointData& PD, Acord2& ac)
+{
+  for (auto& id : ids) {
+    auto f = PD.find(PointID(id));
+    LocalPoint p; if (f != PD.end()) p = f->second;
+    std::cout << "pt " << id << " " << (p.test_xy() ? 1 : 0) << " " << vp::hex(p.test_xy() ? p.x() : 0) << " "
+              << vp::hex(p.test_xy() ? p.y() : 0) << " " << (p.test_z() ? 1 : 0) << " " << vp::hex(p.test_z() ? p.z() : 0)
+              << " " << ac.missing_xy_.count(PointID(id)) << " " << ac.missing_z_.count(PointID(id)) << "\n";
+  }
+}
+
+static int run_acord(const vector<string>& t)
+{
+  if (t.size() < 5) { std::cout << "bad-op\n"; return 0; }
+  const string alg = t[1];
+  const int reps = atoi(t[2].c_str());
+  PointData PD; ObservationData OD;
+  PD.local_coordinate_system = LocalCoordinateSystem::CS(atoi(t[3].c_str()));
+  if (atoi(t[4].c_str())) PD.setAngularObservations_Righthanded(); else PD.setAngularObservations_Lefthanded();
+  vector<string> ids;
+  vector<std::pair<string, double>> later;
+  bool bad = !parse_records(t, 5, PD, OD, ids, later);
   if (bad) { std::cout << "bad-op\n"; return 0; }
   Acord2 ac(PD, OD);
   std::unique_ptr<AcordAlgorithm> a;
@@ -399,6 +427,12 @@ static int run_acord(const vector<string>& t)
   else { std::cout << "bad-op\n"; return 0; }
   for (int k = 0; k < reps; k++) {
     a->execute();
+    if (alg == "hdiff") {
+      // the flag Acord2::execute looks at after every round (a completed strategy is erased from the list)
+      std::cout << "completed " << (a->completed() ? 1 : 0) << "\n";
+      if (k == 0)
+        for (auto& nz : later) { PD[PointID(nz.first)].set_z(nz.second); ac.missing_z_.erase(PointID(nz.first)); }
+    }
     if (alg == "zderived") {
       for (auto& id : ids) {
         auto rg = ac.candidate_z_.equal_range(PointID(id));
@@ -411,13 +445,7 @@ static int run_acord(const vector<string>& t)
       ac.candidate_z_.clear();
     }
   }
-  for (auto& id : ids) {
-    auto f = PD.find(PointID(id));
-    LocalPoint p; if (f != PD.end()) p = f->second;
-    std::cout << "pt " << id << " " << (p.test_xy() ? 1 : 0) << " " << vp::hex(p.test_xy() ? p.x() : 0) << " "
-              << vp::hex(p.test_xy() ? p.y() : 0) << " " << (p.test_z() ? 1 : 0) << " " << vp::hex(p.test_z() ? p.z() : 0)
-              << " " << ac.missing_xy_.count(PointID(id)) << " " << ac.missing_z_.count(PointID(id)) << "\n";
-  }
+  print_points(ids, PD, ac);
   if (alg == "intersection") {
     // Orientation::add_all (run by every ApproxPoint::reset) writes the orientation of the real stand-points
     int k = 0;
@@ -429,5 +457,88 @@ static int run_acord(const vector<string>& t)
     }
   }
   std::cout << "completed " << (a->completed() ? 1 : 0) << "\n";
+  return 0;
+}
+
+// `acord2 <cs 0..7> <rh 0|1> records…`: the same in-memory network, the real Acord2 constructor and the REAL
+// Acord2::execute().  Observer objects are put into `algorithms_` (access re-declared above; the class is not changed):
+// a `Probe` at the head of the list, whose execute() records |missing_xy_|, |missing_z_| at the start of every turn of
+// the do-while (it never completes, so it is called once per turn), and a `Watch` around every strategy: it forwards
+// execute()/completed(), notes which strategy's execute() gave a point its xy, and for the strategies that have no model
+// (AcordPolar, AcordTraverse, AcordWeakChecks) whether the strategy changed a point, a candidate list, `missing_*` or
+// `traverses` (stand-points oriented by AcordPolar::points_from_SPCluster are counted separately, `oriset n`).
+// Output: `acted <className>`* (strategies without a model that did something; the case is then outside the model),
+//         `oriset n`, `by id className`* (the harness' own bookkeeping), `r k mxy mz` per turn, `rounds n`, the point
+//         lines as for `acord`.
+namespace {
+struct Probe : AcordAlgorithm {
+  Acord2& ac; vector<std::pair<size_t, size_t>>& log;
+  Probe(Acord2& a, vector<std::pair<size_t, size_t>>& l) : ac(a), log(l) {}
+  void prepare() override {}
+  void execute() override { log.push_back({ac.missing_xy_.size(), ac.missing_z_.size()}); }
+  const char* className() const override { return "Probe"; }
+};
+struct Watch : AcordAlgorithm {
+  std::shared_ptr<AcordAlgorithm> in; Acord2& ac; PointData& PD; std::set<string>& acted; int& oriset;
+  std::map<string, string>& by;          // point id -> class name of the strategy whose execute() first gave it xy
+  bool modelled;
+  Watch(std::shared_ptr<AcordAlgorithm> i, Acord2& a, PointData& pd, std::set<string>& s, int& o,
+        std::map<string, string>& b, bool m)
+    : in(i), ac(a), PD(pd), acted(s), oriset(o), by(b), modelled(m) {}
+  int oriented() const { int n = 0; for (auto sp : ac.SPClusters_) if (sp && sp->test_orientation()) n++; return n; }
+  string snapshot() const {
+    std::ostringstream o;
+    for (auto& q : PD)
+      o << q.first << ":" << q.second.test_xy() << vp::hex(q.second.test_xy() ? q.second.x() : 0)
+        << vp::hex(q.second.test_xy() ? q.second.y() : 0) << q.second.test_z() << vp::hex(q.second.test_z() ? q.second.z() : 0) << ";";
+    o << ac.candidate_xy_.size() << "," << ac.candidate_z_.size() << "," << ac.missing_xy_.size() << ","
+      << ac.missing_z_.size() << "," << ac.traverses.size();
+    return o.str();
+  }
+  void prepare() override { in->prepare(); }
+  void execute() override {
+    string b = modelled ? string() : snapshot();
+    int o = oriented();
+    std::set<string> had;
+    for (auto& q : PD) if (q.second.test_xy()) had.insert(q.first.str());
+    in->execute();
+    completed_ = in->completed();
+    for (auto& q : PD) if (q.second.test_xy() && !had.count(q.first.str())) by[q.first.str()] = in->className();
+    if (!modelled) {
+      if (snapshot() != b) acted.insert(in->className());
+      oriset += oriented() - o;
+    }
+  }
+  const char* className() const override { return in->className(); }
+};
+}
+
+static int run_acord2(const vector<string>& t)
+{
+  if (t.size() < 3) { std::cout << "bad-op\n"; return 0; }
+  PointData PD; ObservationData OD;
+  PD.local_coordinate_system = LocalCoordinateSystem::CS(atoi(t[1].c_str()));
+  if (atoi(t[2].c_str())) PD.setAngularObservations_Righthanded(); else PD.setAngularObservations_Lefthanded();
+  vector<string> ids;
+  vector<std::pair<string, double>> later;
+  if (!parse_records(t, 3, PD, OD, ids, later) || !later.empty()) { std::cout << "bad-op\n"; return 0; }
+  Acord2 ac(PD, OD);
+  vector<std::pair<size_t, size_t>> log;
+  std::set<string> acted;
+  int oriset = 0;
+  std::map<string, string> by;
+  for (auto& a : ac.algorithms_) {
+    const string cn = a->className();
+    const bool unmodelled = cn == "AcordPolar" || cn == "AcordTraverse" || cn == "AcordWeakChecks";
+    a = std::make_shared<Watch>(a, ac, PD, acted, oriset, by, !unmodelled);
+  }
+  ac.algorithms_.insert(ac.algorithms_.begin(), std::make_shared<Probe>(ac, log));
+  ac.execute();
+  for (auto& s : acted) std::cout << "acted " << s << "\n";
+  std::cout << "oriset " << oriset << "\n";
+  for (auto& q : by) std::cout << "by " << q.first << " " << q.second << "\n";
+  for (size_t k = 0; k < log.size(); k++) std::cout << "r " << k + 1 << " " << log[k].first << " " << log[k].second << "\n";
+  std::cout << "rounds " << log.size() << "\n";
+  print_points(ids, PD, ac);
   return 0;
 }
